@@ -152,7 +152,13 @@ Mutant(ws, f) ==
 (* DECLARATIVE: what a structurally executable workflow is *)
 UsedVars(c) == (IF c.rep \in {"vg", "vs", "vc"} THEN {VarOf(c.rep)} ELSE {}) \cup (IF c.msg THEN {"msg"} ELSE {})
 (* a stage scope defines rs when svals says so (C11 runs with svals = <<0, 2>>), a component with rep = "vc" defines rc itself *)
-Defined(m, c, v) == v \in m.gvars \/ (v = "rs" /\ StageVal(c.stage) > 0) \/ (v = "rc" /\ c.rep = "vc")
+(* the variable `msg` may ALSO be defined in the scope of one stage (svals[7] - 1): that definition is visible to the        *)
+(* components of THAT stage only -- a variable defined only in ANOTHER stage's scope is undefined                            *)
+MsgStage == svals[7] - 1
+Defined(m, c, v) == \/ v \in m.gvars
+                    \/ (v = "rs" /\ StageVal(c.stage) > 0)
+                    \/ (v = "msg" /\ MsgStage = c.stage)
+                    \/ (v = "rc" /\ c.rep = "vc")
 
 UniqueIdsV(m) == \A i, j \in 1..Len(m.comps) : i # j => ~ (m.comps[i].stage = m.comps[j].stage /\ m.comps[i].name = m.comps[j].name)
 ResolvesV(m) == \A c \in 1..Len(m.comps) : \A k \in 1..Len(m.comps[c].refs) :
@@ -263,6 +269,6 @@ CRefV(r) == <<r.ps, r.pn, r.sp, r.path, r.m, r.st>>
 CCompV(c) == [n |-> c.name, s |-> c.stage, rep |-> c.rep, g |-> c.agg, msg |-> c.msg, xkey |-> c.xkey, xtype |-> c.xtype, xcls |-> c.xcls,
               r |-> [k \in 1..Len(c.refs) |-> CRefV(c.refs[k])]]
 EmitMutant == (EmitV /\ Mutated) =>
-                PrintT(ToJson([comps |-> [c \in 1..Len(mw.comps) |-> CCompV(mw.comps[c])], gvars |-> mw.gvars,
+                PrintT(ToJson([comps |-> [c \in 1..Len(mw.comps) |-> CCompV(mw.comps[c])], gvars |-> mw.gvars, sv |-> svals,
                                fault |-> fault, valid |-> Valid(mw), unspec |-> Unspecified(mw), broken |-> Broken(mw), verdict |-> verdict]))
 =============================================================================
